@@ -131,6 +131,10 @@ def run(ctx: Ctx):
         j = jobs[len(jobs) * 2 // 3]
         ctx.sample({"world": name, "calls(frame, estimates, critical filter)": [[c["i"], c["ev"], c["cv"]] for c in j[1]], "spec_scene_ap": j[2],
                     "spec_last_result": {k: j[1][-1][k] for k in ("rs2", "g2", "tp", "fp", "fn", "tn")}}, limit=3)
+    # tracking scores depend on the immediately preceding frame result only (and the scene pools all frames)
+    from . import tracking_manager
+
+    ctx.extra["manager_tracking_traces"] = tracking_manager.run(ctx, renderings=("base_link",), n=15 if ctx.quick else 150)
     ctx.exhaustive = True
     ctx.rule = (
         "TLC explores every sequence of up to 2 (quick) / 3 (thorough) add_frame_result calls over two worlds (2 ground-truth frames x 3 estimate "
@@ -141,7 +145,7 @@ def run(ctx: Ctx):
         "as returned by get_ground_truth_now_frame), comparing every frame result, the caller's list, ground_truth_frames after every call and "
         "get_scene_result (AP per label, ground-truth count). Non-trivial = history evaluating some ground-truth frame more than once."
     )
-    ctx.assumptions += ["tie-free worlds (distinct pair distances) so each call has one specification outcome", "detection task; the tracking predecessor is exercised by the C05 drivers"]
+    ctx.assumptions += ["tie-free worlds (distinct pair distances) so each call has one specification outcome", "replayed histories use the detection task; the tracking predecessor and scene pooling are validated by TLC on random moving scenes (Trace_Clear)"]
 
 
 def _parse_tla(text):
